@@ -238,7 +238,7 @@ TFReset ==
 FResOK(call, r) == ReadAgrees(call, r)
 TFCall ==
   /\ IsEv("FCall") /\ CallOf(E.call) \in Calls
-  /\ LET call == CallOf(E.call) IN
+  /\ LET call == BindUpload(virt, CallOf(E.call)) IN
      IF IsRead(call)
      THEN FResOK(call, ReadOn(virt, call)) /\ UNCHANGED <<virt, accepted>>
      ELSE \E a \in {ApplyW(virt, call, PCond(virt, call))} :
